@@ -6,6 +6,11 @@ variant = sys.argv[2] if len(sys.argv) > 2 else "a"
 props = {json.loads(l)['id']: json.loads(l) for l in open('/verif/properties.jsonl')}
 p = props[pid]
 wt = f"/tmp/seed/{pid}{variant}"
+extra = ""
+if variant != "a":
+    extra = ("* Another engineer has already produced one seeded change for this property. To diversify, AVOID the single most obvious one-line slip in the "
+             "first anchor function; prefer a defect in a different function or file of the mechanism, or one that only shows through a multi-step interaction, "
+             "a failure after partial work, a restart/reload, a boundary value, or a particular interleaving.\n")
 print(f"""You are helping to evaluate a verification effort for the 0chain blockchain (Go). Your job is to write ONE realistic, subtle code change ("seeded defect") that BREAKS the property below while the code still compiles and the repository's existing tests still pass — plus a demonstration that fails with the change and passes without it.
 
 PROPERTY {pid} — {p['title']}
@@ -28,7 +33,7 @@ WORKSPACE
 * Existing tests that must still pass with your change: `cd {wt}/code/go/0chain.net && go test -vet=off -count=1 ./chaincore/client/ ./chaincore/node/ ./conductor/conductrpc/stats/ ./core/cache/ ./core/config/ ./core/encryption/ ./core/sortedmap/ ./core/util/entitywrapper/ ./core/util/orderbuffer/ ./core/viper/ ./sharder/blockdb/` (unset GOFLAGS for this one; these are the only packages whose tests run in this sandbox).
 
 WHAT KIND OF CHANGE
-* It must look like something a developer could plausibly commit (a refactoring slip, an off-by-one, a dropped check on one path, a wrong variable, a missing lock, an operation moved before a validation, a cache/copy forgetting a field, two sites that each look fine alone) — not sabotage with an obvious marker, and not a change to test files.
+{extra}* It must look like something a developer could plausibly commit (a refactoring slip, an off-by-one, a dropped check on one path, a wrong variable, a missing lock, an operation moved before a validation, a cache/copy forgetting a field, two sites that each look fine alone) — not sabotage with an obvious marker, and not a change to test files.
 * Prefer a change that needs something SPECIFIC to manifest: a particular multi-step sequence of operations, an unusual but legal input or boundary value, a failure on one path after partial work, a particular interleaving, a crash/fault at a particular point. Avoid changes that any ordinary use would expose at once (e.g. every transaction failing).
 * The change must actually violate the property as stated (not merely change behaviour), must compile (`go build` of the touched packages through the scratch module, and `go vet` clean enough to build), and must keep the existing tests above passing.
 * Keep it small (typically 1–15 lines in one or two files under code/go/0chain.net, non-test files).
